@@ -23,6 +23,15 @@ def run(ctx):
     for it in range(n):
         ex = R.gen_examples(rng)
         opts = R.gen_opts(rng)
+        if it % 25 == 7:
+            # more than a hundred distinct strings at the default sizes: still well below the 4000 from which the
+            # default settings sample, so every figure is about the supplied examples
+            k = rng.randint(101, 260)
+            ex = ['%s-%04d' % (rng.choice(['AB', 'cd', 'X']), j) for j in rng.sample(range(10000), k)] + \
+                 ['w%d.%d' % (j, j * 7) for j in range(rng.randint(0, 40))] + ['rep'] * rng.randint(0, 5)
+            rng.shuffle(ex)
+            opts = {k_: v_ for k_, v_ in opts.items() if k_ in ('dialect', 'tag')}
+            ctx.bump('over_100_distinct')
         form = rng.choice(['list', 'list', 'dict'])
         if form == 'dict':
             cnt = {}
